@@ -158,6 +158,8 @@ func (f fault) String() string {
 	switch f.Kind {
 	case "short":
 		return fmt.Sprintf("short@%d,%d", f.K, f.J)
+	case "torn":
+		return fmt.Sprintf("killed-inside-write@%d-after-%d-bytes", f.K, f.J)
 	case "src-error", "src-eof", "src-flip":
 		return fmt.Sprintf("%s@offset%d,pass%d", f.Kind, f.K, f.J)
 	case "seek-fail":
@@ -247,6 +249,11 @@ func runPut(dir string, tmpl *cache.Cache, s scenario, f fault) (res runResult) 
 		case "short":
 			if k == f.K {
 				return vos.Verdict{Short: f.J}
+			}
+		case "torn":
+			// the process dies in the middle of a write: J bytes reached the file
+			if k == f.K {
+				return vos.Verdict{Short: f.J, CrashAfterShort: true}
 			}
 		}
 		return vos.Verdict{}
@@ -467,7 +474,7 @@ func main() {
 	}
 	r.MaybeReplay()
 
-	var runs, crashes, fails, shorts, srcs, kills, pairs int64
+	var runs, crashes, fails, shorts, torn, srcs, kills, pairs int64
 	boundaries := map[string]int{}
 	report := func(s scenario, f fault, v string, res runResult) {
 		if v != "" {
@@ -512,6 +519,10 @@ func main() {
 					runs++
 					shorts++
 					report(s, fault{Kind: "short", K: k, J: j, K2: -1}, v, res)
+					v, res = w.one(s, fault{Kind: "torn", K: k, J: j, K2: -1})
+					runs++
+					torn++
+					report(s, fault{Kind: "torn", K: k, J: j, K2: -1}, v, res)
 				}
 			}
 			// pairs: the failing operation and a later clean-up operation both fail
@@ -566,10 +577,11 @@ func main() {
 	}
 	r.Set("evaluations", runs)
 	r.Set("distinct_nontrivial", runs-int64(len(boundaries)))
-	r.Set("rule", "one run per (scenario, fault): scenarios = start state x content size; faults = crash before each file operation of Put (and after the last), each operation failing, each write short at several lengths, pairs of failures (failing operation + a later clean-up operation), the source failing / ending early at every read offset of either pass or changing between passes, Seek failing, and a real SIGKILL of a child process at each boundary. non-trivial = runs with a fault (all distinct by construction)")
+	r.Set("rule", "one run per (scenario, fault): scenarios = start state x content size; faults = crash before each file operation of Put (and after the last), each operation failing, each write short at several lengths, the process dying inside each write after several lengths, pairs of failures (failing operation + a later clean-up operation), the source failing / ending early at every read offset of either pass or changing between passes, Seek failing, and a real SIGKILL of a child process at each boundary. non-trivial = runs with a fault (all distinct by construction)")
 	r.Set("crash_points", crashes)
 	r.Set("failed_operations", fails)
 	r.Set("short_writes", shorts)
+	r.Set("process_death_inside_a_write", torn)
 	r.Set("failure_pairs", pairs)
 	r.Set("source_faults", srcs)
 	r.Set("real_sigkill_runs", kills)
